@@ -41,6 +41,40 @@ def rule_rx(rx):
     return re.compile(rx.strip().replace(r'\.lock\(\)\.unwrap\(\)', LOCK_UNWRAP), re.S)
 
 
+
+GUARD_SOURCES = r'(?:lock_tx|lock_pool|try_lock_pool|lock_middlewares|lock_reducers|lock_subs|lock_subs_unwrap|cs_lock_tx|cs_lock_handle|sel_lock)'
+MUTATORS = r'(?:take|push|clear|retain|retain_mut|insert|remove|pop|drain|append|extend|extend_from_slice|truncate|swap_remove|replace|get_or_insert|get_or_insert_with|as_mut|iter_mut|sort|sort_by|sort_by_key|dedup|reverse|swap|split_off|resize|fill|rotate_left|rotate_right|first_mut|last_mut|get_mut|insert_mut)'
+
+
+def unmodelled_guard_write(body):
+    """the first write through a guard returned by one of the lock stand-ins (named or temporary) that is still in the
+    rewritten body, or None"""
+    mask = code_mask(body)
+    code = ''.join(c if m else ' ' for c, m in zip(body, mask))
+    # temporaries: lock_x(..)[.unwrap()|?].mutator(
+    m = re.search(GUARD_SOURCES + r'\s*\((?:[^()]|\([^()]*\))*\)\s*(?:\.\s*unwrap\(\)\s*|\?\s*)?\.\s*' + MUTATORS + r'\s*\(', code)
+    if m:
+        return ' '.join(m.group(0).split())[:80]
+    # named guards
+    names = set()
+    for m in re.finditer(r'\blet\s+(?:mut\s+)?(\w+)\s*(?::[^=;]+)?=\s*(?:match\s+)?' + GUARD_SOURCES + r'\s*\(', code):
+        names.add(m.group(1))
+    for m in re.finditer(r'\b(?:Ok|Some)\(\s*(?:mut\s+)?(\w+)\s*\)\s*(?:=>|=)\s*(?:match\s+)?' + GUARD_SOURCES + r'\s*\(', code):
+        names.add(m.group(1))
+    # `match lock_x(..) { Ok(mut g) => ..` / `if let Ok(mut g) = lock_x(..)`
+    for m in re.finditer(r'(?:match|if\s+let\s+Ok\(\s*(?:mut\s+)?(\w+)\s*\)\s*=)\s*' + GUARD_SOURCES + r'\s*\(', code):
+        if m.group(1):
+            names.add(m.group(1))
+    for m in re.finditer(r'match\s+' + GUARD_SOURCES + r'\s*\((?:[^()]|\([^()]*\))*\)\s*\{\s*Ok\(\s*(?:mut\s+)?(\w+)\s*\)', code):
+        names.add(m.group(1))
+    for n in names:
+        for pat in (r'\b' + re.escape(n) + r'\s*\.\s*' + MUTATORS + r'\s*\(', r'\*\s*' + re.escape(n) + r'\s*=[^=]', r'&mut\s*\*+\s*' + re.escape(n) + r'\b', r'\b' + re.escape(n) + r'\s*\.\s*deref_mut\s*\('):
+            mm = re.search(pat, code)
+            if mm:
+                return ' '.join(mm.group(0).split())[:80]
+    return None
+
+
 class Undecided(Exception):
     """extraction could not be done (lost anchor, ambiguous match...) -> exit 2, never an alarm"""
     pass
@@ -340,6 +374,9 @@ class Unit:
         lo, hi = 0, len(text)
         if spec.container and spec.container != '-':
             cs = find_container(text, mask, spec.container)
+            if len(cs) > 1:
+                # several impl blocks with the same header (a maintainer may split an impl): the one that holds the function
+                cs = [c for c in cs if [f for f in find_fn(text, mask, spec.name, c[1], c[2]) if f['bopen'] is not None]]
             if len(cs) != 1:
                 raise Undecided('lost anchor: %d containers match %r in %s' % (len(cs), spec.container, spec.file))
             lo, hi = cs[0][1], cs[0][2]
@@ -544,6 +581,11 @@ class Unit:
         for l in log:
             l['fn'] = spec.key
         gen.rewrite_log += log
+        bad = unmodelled_guard_write(body)
+        if bad:
+            # a write through a mutex guard is invisible to Verus unless a rewrite rule (R6) turned it into a call of a
+            # cell helper: verifying the function anyway would decide it against a model that ignores that write
+            raise Undecided('unsupported: write through a mutex guard that no rewrite rule covers (%s) in %s' % (bad, spec.key))
 
         if spec.mutself:
             # R14: `mut self` (by-value, mutable) is outside the Verus subset: bind it to a local
@@ -731,7 +773,17 @@ class Unit:
                 text, mask, fn = self.locate(spec)
                 hdr = self.make_header(spec, text[fn['start']:fn['bopen']], gen, spec.file, 0)
             except (Undecided, ScanError) as e:
-                raise Undecided('%s; and no stub possible: %s' % (reason, e))
+                # the function is not where the template expects it (removed, renamed, moved): nothing is emitted for it;
+                # its properties are undecided, and any extracted caller that still needs it is rejected (and stubbed) in turn
+                props = set(spec.props)
+                for c in spec.requires + spec.ensures:
+                    props |= set(c.props or [])
+                for ls in spec.loops.values():
+                    for c in ls.inv + ls.inv_except_break + ls.ensures:
+                        props |= set(c.props or [])
+                gen.lost.append((spec.key, sorted(props), '%s; not found, no stub emitted: %s' % (reason, e)))
+                gen.lines.append('// ---- LOST fn %s (no stub): %s' % (spec.key, reason.replace('\n', ' ')))
+                return
         props = set(spec.props)
         for c in spec.requires + spec.ensures:
             props |= set(c.props or [])
